@@ -249,6 +249,19 @@ def run(ctx):
                                           "than the matrix of the items as given (layout %s)" % tag, replay)
             except Exception as e:
                 ctx.violation(key + ":roundtrip-of-transposed-data:error:" + C.errkind(e), "Preprocessor on transposed data raised %r on layout %s" % (e, tag), replay)
+        # ---- 1d. list items that hold the SAME sample labels in another element order (a record stored newest-first next to one stored oldest-first): refused,
+        #          or every value back at its own label - never joined by position
+        if ok1 and isinstance(obj, list) and len(obj) >= 2 and len(sdims) == 1 and lay["multiindex"] is None:
+            sd = sdims[0]
+            obj2 = [obj[0]] + [it.isel({sd: slice(None, None, -1)}) for it in obj[1:]]
+            try:
+                pr = Preprocessor(sample_name=sname, feature_name=fname, with_center=False, with_std=False, with_coslat=False)
+                back5 = pr.inverse_transform_data(pr.fit_transform(obj2, tuple(sdims)))
+                ctx.dist["c02:list-items-in-other-sample-order:accepted"] += 1
+                same_structure(ctx, key + ":list-items-in-other-sample-order", "Preprocessor round trip of a list whose later items hold the samples in reversed order, on %s" % tag,
+                               obj2, align_dims(obj2, back5), replay)
+            except Exception:
+                ctx.dist["c02:list-items-in-other-sample-order:refused"] += 1
         # ---- 2. the model of the stacking order (DataArray / equal-dim Dataset / list; MultiIndex dims are
         #         opaque single dims for the model)
         if lay["multiindex"] is None and not (lay["container"] == "Dataset" and lay["ds_mode"] == "different"):
